@@ -213,6 +213,30 @@ def case_healpix(rng: Any, ctx: Ctx, index: int) -> None:
     guarded('C17.healpix', judge)
 
 
+def case_passthrough(rng: Any, ctx: Ctx, index: int) -> None:
+    """For a HEALPix landscape the flat index is the ring pixel number world2pixel returns: no precision may be
+    lost on the way, at any resolution and in either 64-bit mode (independent of healpy's float64 accuracy)."""
+    k = int(index % 14)
+    nside = 2 ** k
+    land = HealpixLandscape(nside, 'I', np.float32)
+    fdt = np.float64 if ctx.x64 else np.float32
+    n = 3000
+    theta = np.arccos(rng.uniform(-1, 1, n)).astype(fdt)
+    phi = rng.uniform(0, 2 * np.pi, n).astype(fdt)
+    LOG.case_key(f'passthrough:nside{nside}', True)
+
+    def judge() -> None:
+        got = np.asarray(land.world2index(jnp.asarray(theta), jnp.asarray(phi)))
+        pix = np.asarray(land.world2pixel(jnp.asarray(theta), jnp.asarray(phi))[0])
+        LOG.evaluated('C17.passthrough', n)
+        LOG.count('C17.passthrough.nside', nside, n)
+        if not np.array_equal(got.astype(np.int64), pix.astype(np.int64)):
+            j = int(np.nonzero(got.astype(np.int64) != pix.astype(np.int64))[0][0])
+            LOG.violation('C17', 'C17.passthrough', f'world2index/pixel-number-altered/x64={ctx.x64}',
+                          f'nside {nside}: pixel {int(pix[j])} became index {int(got[j])} ({int((got != pix).sum())} of {n})')
+    guarded('C17.passthrough', judge)
+
+
 def case_coverage(rng: Any, ctx: Ctx, index: int) -> None:
     nside = int(gen.pick(rng, [1, 2, 4, 8]))
     land = HealpixLandscape(nside, gen.pick(rng, ['I', 'IQU']), np.float32)
@@ -258,5 +282,6 @@ def run(ctx: Ctx) -> None:
     drive(ctx, case_bijection, 155, 155, stream=1, part='pixel')
     drive(ctx, case_pixel, 1200, 12000, stream=0, part='pixel')
     drive(ctx, case_nonpow2, 10, 30, stream=5, part='healpix')
+    drive(ctx, case_passthrough, 56, 280, stream=6, part='healpix')
     drive(ctx, case_coverage, 200, 2000, stream=4, part='healpix')
     drive(ctx, case_healpix, 140, 1400, stream=3, part='healpix')
